@@ -17,6 +17,7 @@ import (
 	"io"
 	"math"
 	"reflect"
+	"slices"
 	"strings"
 	"sync"
 	"testing"
@@ -36,6 +37,7 @@ type c05Op struct {
 	N    int    `json:"n,omitempty"`
 	Dur  int    `json:"dur_ms,omitempty"` // handler duration for calls
 	K    int    `json:"k,omitempty"`      // number of concurrent Close callers
+	Ask  bool   `json:"ask,omitempty"`    // client call: the server handler first asks the client (roots/list, nested in the request) and the client takes Dur to answer
 }
 
 type c05Fault struct {
@@ -121,6 +123,16 @@ func genC05(r *vh.Rand, idx int) c05Spec {
 		s.Faults = []c05Fault{{Side: b, Kind: "broken-resp"}}
 		return s
 	}
+	if s.Version != "" && r.Chance(1, 4) {
+		// Directed shape: a handler is waiting for the client's answer to a nested request when its session is
+		// closed from the server side; the answer arrives after the Close began
+		t := r.Range(1, 4)
+		n++
+		s.Ops = slices.DeleteFunc(s.Ops, func(o c05Op) bool { return o.Kind == "close" && o.Side == "server" }) // one Close instant per side
+		s.Ops = append(s.Ops, c05Op{Kind: "call", Side: "client", At: 0, N: n, Dur: t + r.Range(1, 4), Ask: true},
+			c05Op{Kind: "close", Side: "server", At: t, K: r.Range(1, 2)})
+		return s
+	}
 	if r.Chance(1, 4) {
 		s.Ops = append(s.Ops, c05Op{Kind: "kill-read", Side: r.Choose("client", "server"), At: r.Intn(horizon)})
 	}
@@ -191,6 +203,9 @@ func runC05(c *vh.Case, spec c05Spec) {
 		if op.N != 0 {
 			durOf[op.N] = ms(op.Dur)
 		}
+		if op.Ask {
+			durOf[op.N], durOf[op.N+5000] = 0, ms(op.Dur) // the server handler is quick; the client takes its time to answer
+		}
 	}
 	dur := func(n int) time.Duration { return durOf[n] }
 	var sopts *mcp.ServerOptions
@@ -218,6 +233,15 @@ func runC05(c *vh.Case, spec c05Spec) {
 	server.AddTool(&mcp.Tool{Name: "work", InputSchema: json.RawMessage(`{"type":"object"}`)}, func(ctx context.Context, req *mcp.CallToolRequest) (*mcp.CallToolResult, error) {
 		var a struct{ Nonce int }
 		json.Unmarshal(req.Params.Arguments, &a)
+		return &mcp.CallToolResult{Content: []mcp.Content{&mcp.TextContent{Text: fmt.Sprintf("nonce-%d", a.Nonce)}}}, nil
+	})
+	// "ask": the handler needs an answer from the client (a nested request made with its own context) before it can finish
+	server.AddTool(&mcp.Tool{Name: "ask", InputSchema: json.RawMessage(`{"type":"object"}`)}, func(ctx context.Context, req *mcp.CallToolRequest) (*mcp.CallToolResult, error) {
+		var a struct{ Nonce int }
+		json.Unmarshal(req.Params.Arguments, &a)
+		if _, err := req.Session.ListRoots(ctx, &mcp.ListRootsParams{Meta: mcp.Meta{"nonce": a.Nonce + 5000}}); err != nil {
+			log.Add("nested-call-failed", "n", a.Nonce, "err", err.Error())
+		}
 		return &mcp.CallToolResult{Content: []mcp.Content{&mcp.TextContent{Text: fmt.Sprintf("nonce-%d", a.Nonce)}}}, nil
 	})
 	server.AddReceivingMiddleware(c05MW(log, "server", dur))
@@ -327,7 +351,11 @@ func runC05(c *vh.Case, spec c05Spec) {
 				var err error
 				if op.Side == "client" {
 					var res *mcp.CallToolResult
-					res, err = cs.CallTool(ctx, &mcp.CallToolParams{Name: "work", Arguments: map[string]any{"nonce": op.N}})
+					tool := "work"
+					if op.Ask {
+						tool = "ask"
+					}
+					res, err = cs.CallTool(ctx, &mcp.CallToolParams{Name: tool, Arguments: map[string]any{"nonce": op.N}})
 					if err == nil && textOf(res) != fmt.Sprintf("nonce-%d", op.N) {
 						err = fmt.Errorf("foreign payload %s", textOf(res))
 					}
@@ -484,6 +512,48 @@ func decideC05(c *vh.Case, spec c05Spec) {
 			if out := fstr(e, "outcome"); out != "closed" {
 				c.Violate("call-after-close-not-closed", "a call on the closed client session returned %q instead of ErrConnectionClosed", out)
 				return
+			}
+		}
+	}
+	// (c) graceful: a handler that was running when its side called Close finishes, and its result still
+	// reaches the caller -- provided nothing else interferes (no injected faults, the caller itself does not
+	// close or lose its reader meanwhile, a transport the harness fully controls)
+	callRet := map[int]vh.Event{}
+	killRead := false
+	for _, e := range evs {
+		if e.Kind == "call-return" {
+			callRet[fint(e, "n")] = e
+		}
+		if e.Kind == "kill-read" {
+			killRead = true
+		}
+	}
+	for _, op := range spec.Ops {
+		if op.Kind == "kill-read" {
+			killRead = true
+		}
+	}
+	if len(spec.Faults) == 0 && !killRead && spec.KeepAlive == "" && (spec.Transport == "mem" || spec.Transport == "pipe") {
+		for _, side := range []string{"client", "server"} {
+			fc, closed := firstClose[side]
+			if !closed {
+				continue
+			}
+			other := "client"
+			if side == "client" {
+				other = "server"
+			}
+			for n, hh := range handlers[side] {
+				if hh.finish == nil || !(hh.start.Seq < fc.Seq && hh.finish.Seq > fc.Seq) {
+					continue
+				}
+				if oc, ok := firstClose[other]; ok && oc.Seq < hh.finish.Seq {
+					continue // the caller's side was closing too
+				}
+				if r, ok := callRet[n]; ok && fstr(r, "outcome") != "ok" {
+					c.Violate("graceful-result-lost", "%s called Close at %dus while its handler for call %d was running (%dus..%dus); the handler finished, but the caller got %q instead of the result", side, fc.T, n, hh.start.T, hh.finish.T, fstr(r, "outcome"))
+					return
+				}
 			}
 		}
 	}
